@@ -62,6 +62,8 @@ type Ctx struct {
 	ginitCache    map[*ssa.Global]*ssa.Function
 	identMemo     map[*ssa.Function]int
 	inlineHelpers bool
+	ftMemo        map[*types.Named][]*ssa.Function
+	nameHandedOn  bool                           // calleeEnvV: a call result the callee hands on is named after the caller-side call value
 	phiEdgeLive   func(phi *ssa.Phi, i int) bool // optional: restricts φ edges when rendering canonical forms
 	gmemo         map[string]int
 }
@@ -139,6 +141,12 @@ func Load(repo string, tags string, whole bool, extraPkgs ...string) (*Ctx, erro
 			}
 		}
 	})
+	// instances of the module's generic functions live outside any package in go/ssa
+	for f := range ssautil.AllFunctions(prog) {
+		if o := f.Origin(); o != nil && o != f && f.Blocks != nil && inModule(f) && !c.isGenFile(f.Pos()) {
+			c.Funcs = append(c.Funcs, f)
+		}
+	}
 	if n < 40 {
 		return nil, fmt.Errorf("only %d module packages loaded (expected >= 40)", n)
 	}
